@@ -45,7 +45,7 @@ theorem parseNumber_num (x : Num) (hx : x.OK) (rest : List Char)
       have : c = e := by simpa [hT2, Num.expText] using hc.symm
       subst this
       rcases hex.1 with rfl | rfl <;> decide
-  have hE : ∃ b', ∀ b, numExp false false b T2 = .ok (Num.expText ⟨ip, frac, exp⟩, b' b, rest) := by
+  have hE : ∃ b' : Bool → Bool, ∀ b, numExp false false b T2 = .ok (Num.expText ⟨ip, frac, exp⟩, b' b, rest) := by
     cases exp with
     | none =>
       refine ⟨fun b => b, fun b => ?_⟩
@@ -53,10 +53,9 @@ theorem parseNumber_num (x : Num) (hx : x.OK) (rest : List Char)
     | some p =>
       obtain ⟨e, sg, ds⟩ := p
       obtain ⟨he, hs, hdne, hds⟩ := hex
-      have key := fun b => numExp_some b e sg ds rest he hs hdne hds hstopR
-      refine ⟨fun b => (key b).choose, fun b => ?_⟩
-      have := (key b).choose_spec
-      simpa [hT2, Num.expText, List.append_assoc] using this
+      obtain ⟨f, hf'⟩ := numExp_some e sg ds rest he (by intro c hc; subst hc; exact hs) hdne hds hstopR
+      refine ⟨f, fun b => ?_⟩
+      simpa [hT2, Num.expText, List.append_assoc] using hf' b
   obtain ⟨bE, hE⟩ := hE
   -- the decimal part and what follows it
   obtain ⟨T1, hT1⟩ : ∃ T1, T1 = (Num.fracText ⟨ip, frac, exp⟩) ++ T2 := ⟨_, rfl⟩
@@ -99,7 +98,6 @@ theorem parseNumber_num (x : Num) (hx : x.OK) (rest : List Char)
     have hc : isDigit c = true := hip c (by simp)
     obtain ⟨hm, hp, _⟩ := digit_ne c hc
     rw [List.cons_append] at hI ⊢
-    simp [parseNumber, peek, hm, hp, hc, hI, hD, hN4, hE, hN5, hS, hU, bind, Except.bind, Num.text, hT1, hT2,
-      List.append_assoc]
+    simp [parseNumber, peek, hm, hp, hc, hI, hD, hN4, hE, hN5, hS, hU, bind, Except.bind, Num.text]
 
 end TfelVerif.C31
